@@ -1,4 +1,4 @@
-import SciVerif.Lemmas.C01q
+import SciVerif.Lemmas.C01r
 
 /-!
 # C01 — Expression solver evaluates by the documented step table
@@ -333,6 +333,42 @@ theorem C01_reject_missing_operand_in_call_after_prefix (alg : AtomAlg A) (lit :
       · exact itemOK_opr alg lit _ it (hpost it hit))
   simpa [List.append_assoc] using this
 
+/-- (D, string level, general position, ANY nesting depth) **A dangling operator inside any number
+    of nested parentheses / one-argument calls is rejected**, after a well-formed prefix:
+    `pre e post  f( g1( g2( … e' o … ) ) ) rest` -- `nestCalls fs t` wraps the text `t` in the calls
+    `fs` (each of `( exp( log( log10( sqrt( sin( cos( tan(`, with arbitrary blanks before the
+    symbol and after its closing parenthesis).  The innermost nested solver raises on `e' o`
+    and the error propagates through every level.  `fs = []` is
+    `C01_reject_missing_operand_in_call_after_prefix`. -/
+theorem C01_reject_missing_operand_nested_after_prefix (alg : AtomAlg A) (lit : List Char → A)
+    (hn : NegNeg alg) (e : E) (hwf : e.WF) (hl : LitOK alg lit e)
+    (pre post : List LItem) (hpre : OprOnly pre) (hpost : OprOnly post)
+    (hadj : Adj (pre ++ items e ++ post)) (u : List Char)
+    (hu : Pre ((pre ++ items e ++ post).flatMap itemLex) u)
+    (f : F1) (fs : List (F1 × Nat × Nat)) (e' : E) (hwf' : e'.WF) (hl' : LitOK alg lit e') (o : OprK)
+    (ho : o ≠ .not) (v : List Char) (hv : Pre (lexemes e' ++ [o.sym]) v)
+    (j k : Nat) (rest : List Char) :
+    solve dflt alg dfltSteps (u ++ blanks j ++ f.sym ++ nestCalls fs (v ++ blanks k) ++ ')' :: rest)
+      = .error "operand" := by
+  have := solve_nested_err alg lit hn _ hadj u hu (cdepth e)
+    (framed_len alg lit e hl pre post hpre hpost u hu)
+    (fun n hd => itemOK_framed alg lit hn e hwf hl pre post hpre hpost n hd)
+    f j rest fs e' hwf' hl' o v k hv "operand" (C01_reject_trailing_operator alg lit hn e' hwf' o ho)
+  simpa [List.append_assoc] using this
+
+/-- (D, string level, ANY nesting depth) the same at the start of the string:
+    `f( g1( … e' o … ) ) rest`, e.g. `((sin( 1 * )))`. -/
+theorem C01_reject_missing_operand_nested (alg : AtomAlg A) (lit : List Char → A)
+    (hn : NegNeg alg) (f : F1) (fs : List (F1 × Nat × Nat)) (e' : E) (hwf' : e'.WF)
+    (hl' : LitOK alg lit e') (o : OprK) (ho : o ≠ .not) (v : List Char)
+    (hv : Pre (lexemes e' ++ [o.sym]) v) (j k : Nat) (rest : List Char) :
+    solve dflt alg dfltSteps (blanks j ++ f.sym ++ nestCalls fs (v ++ blanks k) ++ ')' :: rest)
+      = .error "operand" := by
+  have := solve_nested_err alg lit hn [] trivial [] Pre.nil 0 (Nat.le_refl _)
+    (fun _ _ _ h => by cases h)
+    f j rest fs e' hwf' hl' o v k hv "operand" (C01_reject_trailing_operator alg lit hn e' hwf' o ho)
+  simpa [List.append_assoc] using this
+
 /-- The full statement (character level): for every well-formed expression whose literals the
     atom class reads, and every blank oracle, `solve` on the rendered text returns `eval e`. -/
 def C01_solve_eq_eval_statement : Prop :=
@@ -451,6 +487,10 @@ example : solve dflt intAlg dfltSteps
     ⟨by decide, rfl⟩ (.bin .mul) (by simp) _
     (by simpa [blanks, lexemes, B2.sym, OprK.sym] using Pre.cons 0 ['1'] (Pre.cons 1 ['*'] Pre.nil))
     0 0 ['+', '7']
+
+/-- `(sin( (1 *) ))` : two more levels around `(1 *)` (instance of `C01_reject_missing_operand_nested`) -/
+example : nestCalls [(.sin, 0, 0), (.par, 1, 1)] ['1', ' ', '*']
+    = "sin( (1 *) )".toList := by decide
 
 example : ¬ Balanced ['(', '1'] := by unfold Balanced; decide
 example : ¬ Balanced ['1', ')', '('] := by unfold Balanced; decide
